@@ -2,9 +2,72 @@
    field-by-field enumeration `all_group`; node_by_id. *)
 From RV Require Import Model.Tree.
 From RV Require Import Proofs.Tree.
-From Coq Require Import NArith List Bool Lia.
+From RV Require Import Gen.CollectTables.
+From Coq Require Import NArith List Bool Lia String.
 Import ListNotations.
 Local Open Scope N_scope.
+
+(* ------------------------------------------------------------------------------------------------ *)
+(* The collection loops of crates/usvg/src/tree/mod.rs have the shape Model/Tree.v was written for.
+   `paint_loop_arms` / `collector_guards` are regenerated from the source on every run
+   (tools/gen_ids.py -> Gen/CollectTables.v): an arm with a guard (`Node::Path(p) if !p.is_visible() => {}`),
+   a field that is no longer pushed, a dropped `subroots` call or a new `if` changes these obligations.   *)
+Lemma paint_loop_arms_as_modelled :
+  paint_loop_arms =
+  [("Group", "", ArmRec); ("Path", "", ArmPush ["fill"; "stroke"]); ("Image", "", ArmSkip); ("Text", "", ArmSkip)]%string
+  /\ paint_loop_subroots = true.
+Proof. split; reflexivity. Qed.
+
+(* the model's reading of the table: which paints of a node one iteration hands to the callback *)
+Definition arm_paints (sel : paint -> bool) (a : string * string * parm) (n : node) : option (list paint) :=
+  match a with
+  | (kind, guard, act) =>
+      let here := match n, kind with
+                  | NGroup _, "Group"%string | NPath _ _ _ _, "Path"%string
+                  | NImage _ _, "Image"%string | NText _ _ _, "Text"%string => true
+                  | _, _ => false
+                  end in
+      if negb here then None
+      else if negb (String.eqb guard "") then None        (* a guarded arm is outside the model: no reading *)
+      else match act, n with
+           | ArmPush fields, NPath _ _ fl st =>
+               Some (filter sel (flat_map (fun f => if String.eqb f "fill" then [fl]
+                                                    else if String.eqb f "stroke" then [st] else []) fields))
+           | ArmPush _, _ => None
+           | _, _ => Some []
+           end
+  end.
+Fixpoint first_arm (sel : paint -> bool) (arms : list (string * string * parm)) (n : node) : option (list paint) :=
+  match arms with
+  | [] => None
+  | a :: r => match a with (kind, _, _) =>
+                match arm_paints sel a n with
+                | Some l => Some l
+                | None => match n, kind with
+                          | NGroup _, "Group"%string | NPath _ _ _ _, "Path"%string
+                          | NImage _ _, "Image"%string | NText _ _ _, "Text"%string => None   (* first matching arm wins *)
+                          | _, _ => first_arm sel r n
+                          end
+                end
+              end
+  end.
+(* for every node - hidden paths included - the generated arm list, read arm by arm, pushes exactly `node_paints` *)
+Lemma node_paints_is_source_arms sel n : first_arm sel paint_loop_arms n = Some (node_paints sel n).
+Proof. destruct n as [g|i v fl st|i sub|i fl ch]; reflexivity. Qed.
+
+Lemma collector_guards_as_modelled :
+  collector_guards =
+  [("collect_clip_paths", ["let Node::Group(ref g) = node"; "!clip_paths.iter().any(|other| Arc::ptr_eq(c, other))";
+                           "let Node::Group(ref g) = node"]);
+   ("collect_masks", ["let Node::Group(ref g) = node"; "!masks.iter().any(|other| Arc::ptr_eq(m, other))";
+                      "let Node::Group(ref g) = node"]);
+   ("collect_filters", ["let Node::Group(ref g) = node"; "!filters.iter().any(|other| Arc::ptr_eq(filter, other))";
+                        "let Node::Group(ref g) = node"]);
+   ("collect_paint_servers", ["!self.linear_gradients.iter().any(|other| Arc::ptr_eq(lg, other))";
+                              "!self.radial_gradients.iter().any(|other| Arc::ptr_eq(rg, other))";
+                              "!self.patterns.iter().any(|other| Arc::ptr_eq(patt, other))"]);
+   ("loop_over_paint_servers", ["let Some(paint) = paint"])]%string.
+Proof. reflexivity. Qed.
 
 Section Collector.
   Context {D : Type} (ptr : D -> N) (defs : node -> list D) (sf : bool).
@@ -226,3 +289,28 @@ Proof.
     apply (NoDup_map_inj node_id (desc_group g)); auto.
   - exfalso. apply (proj1 (node_by_id_none g (node_id n)) E n Hn). reflexivity.
 Qed.
+
+(* ------------------------------------------------------------------------------------------------ *)
+(* hidden paths: `visible = false` changes nothing for the collections.                              *)
+Lemma hidden_path_paints_collected root i fl st p :
+  In (NPath i false fl st) (all_group root) -> In p [fl; st] ->
+  (is_lin p = true -> In (pa_ptr p) (map pa_ptr (t_lins (with_collections root)))) /\
+  (is_rad p = true -> In (pa_ptr p) (map pa_ptr (t_rads (with_collections root)))) /\
+  (is_pat p = true -> In (pa_ptr p) (map pa_ptr (t_pats (with_collections root)))).
+Proof.
+  intros Hn Hp.
+  assert (R : is_server p = true -> In p (reach_paints root)).
+  { intro Hs. unfold reach_paints, reach_defs. apply in_flat_map. exists (NPath i false fl st). split; auto.
+    change (In p (filter is_server [fl; st])). apply filter_In. split; auto. }
+  destruct (with_collections_complete root) as (_ & _ & _ & C).
+  repeat split; intro Hk.
+  - apply (C p (R (sel_server_lin p Hk))); exact Hk.
+  - apply (C p (R (sel_server_rad p Hk))); exact Hk.
+  - apply (C p (R (sel_server_pat p Hk))); exact Hk.
+Qed.
+
+(* flipping the visible flag of every path leaves every collector result unchanged, ptr by ptr *)
+Definition set_vis_node (b : bool) (n : node) : node :=
+  match n with NPath i _ fl st => NPath i b fl st | _ => n end.
+Lemma node_paints_vis sel i v w fl st : node_paints sel (NPath i v fl st) = node_paints sel (NPath i w fl st).
+Proof. reflexivity. Qed.
